@@ -130,6 +130,12 @@ def h_bits(params, vals, ctx):
         b0 = params["b0"] - (params["b0"] >> params["i"] & 1) * 2 ** params["i"] + p * 2 ** params["i"]
         b1 = params["b1"] - (params["b1"] >> params["j"] & 1) * 2 ** params["j"] + q * 2 ** params["j"]
         data = bytes([b0, b1])
+    if params.get("after_other"):
+        # one run that writes a normal and a turbo tape: the other format's encoder ran first in this process, on the same bytes
+        other = bk_wav.Env if turbo else bk_wav.TurboEnv
+        first = bk_wav.encode_data_bits(data, other)
+        if not _demod_equal(first, data, not turbo):
+            return False
     pulses = bk_wav.encode_data_bits(data, env)
     ctx.observe(pulses)
     return _demod_equal(pulses, data, turbo)
@@ -348,6 +354,43 @@ def h_path(params, vals, ctx):
     return tag == "WAVCALL" and f == fmt and cb == b and len(cc) == 2 and cc[0] == img[0] and cc[1] == img[1] and cn == want_name
 
 
+def h_path_include(params, vals, ctx):
+    """An output directive inside an included file names its file relative to THAT file (and defaults to that file's name)."""
+    import contextlib, io
+    import pdpy11.compiler as C
+    from pdpy11 import reports
+    from ..common import BUILD
+    from ..symasm import write_aux_file
+    x, b = vals["X"], vals["B"]
+    require(-256 < x < 256 and 0 <= b < 65536)
+    d, arg = params["dir"], params.get("arg")
+    sub = f"pinc_{d}_{'default' if arg is None else 'arg'}"
+    root = os.path.join(BUILD, "aux", "c13", sub)
+    write_aux_file(f"c13/{sub}/lib", "tape.mac", d + (f' "{arg}"' if arg is not None else "") + "\n.byte 7\n")
+    main = os.path.join(root, "main.mac")
+    o = assemble([(main, '.link {B}\n.byte {X}\n.include "lib/tape.mac"\n')], vals, route=ctx.route, charset="utf-8")
+    ctx.observe_outcome(o)
+    ctx.reach(o.status == "ok")
+    if o.status != "ok" or o.errors:
+        return False
+    rec = Recorder()
+    real, real_formats = C.open_device, dict(C.file_formats)
+    C.open_device = rec.open_device
+    for f in ("bk_wav", "bk_turbo_wav"):
+        C.file_formats[f] = lambda base, code, name, _f=f: ("WAVCALL", _f, base, code, name)
+    try:
+        with reports.handle_reports(lambda p_, ident, *r: None):
+            with contextlib.redirect_stderr(io.StringIO()):
+                was, first = o.comp.emit_files(o.base, o.code)
+    finally:
+        C.open_device = real
+        C.file_formats.clear()
+        C.file_formats.update(real_formats)
+    fmt, ext = DIRECTIVES[d]
+    want = expected_path(os.path.join(root, "lib", "tape.mac"), arg, ext)
+    return bool(was) and len(rec.files) == 1 and rec.files[0][0] == want and first["path"] == want and first["format"] == fmt
+
+
 def h_multi(params, vals, ctx):
     """Several output directives in one source: one write per directive, in order, each with its own path, container and name."""
     import pdpy11.compiler as C
@@ -525,6 +568,8 @@ def obligations(tier, seed):
         t = "turbo" if turbo else "normal"
         obs.append(Ob(oid=f"bits/{t}/byte-middle", harness=P + "h_bits", params={"turbo": turbo, "mode": "byte", "left": [0x5A], "right": [0xC3]},
                       vars={"X": "int"}, timeout=600))
+        obs.append(Ob(oid=f"bits/{t}/byte-middle/after-the-other-format", harness=P + "h_bits", params={"turbo": turbo, "mode": "byte", "left": [0x5A], "right": [0xC3], "after_other": True},
+                      vars={"X": "int"}, timeout=900, per_path=120, pre="every byte value; the other format was encoded first in the same process"))
         obs.append(Ob(oid=f"bits/{t}/byte-alone", harness=P + "h_bits", params={"turbo": turbo, "mode": "byte", "left": [], "right": []},
                       vars={"X": "int"}, timeout=600))
         for (i, j) in [(0, 7), (7, 0), (3, 4)] if tier == "quick" else [(i, j) for i in range(8) for j in range(8)]:
@@ -546,11 +591,19 @@ def obligations(tier, seed):
         obs.append(Ob(oid=f"name/bk-charset/from-path/{n}", harness=P + "h_name", params={"n": n, "dir": "make_turbo_wav", "charset": "bk", "default_name": True},
                       vars={"S_1": "str"}, timeout=900))
     for d in DIRECTIVES:
-        for arg in (None, "out/x.dat", "../y.bin", "/abs/z.raw"):
-            if tier == "quick" and arg in ("../y.bin",) and d not in ("make_bin", "make_wav"):
+        for arg in (None, "out/x.dat", "../y.bin", "/abs/z.raw", "~rom", "~disk image"):
+            if tier == "quick" and arg in ("../y.bin", "~disk image") and d not in ("make_bin", "make_wav"):
                 continue
+            if arg and arg.startswith("~") and d in ("make_wav", "make_turbo_wav"):
+                continue   # (the tape name derived from such a path is not the subject here)
             obs.append(Ob(oid=f"path/{d}/{arg or 'default'}".replace("/", "_").replace("path_", "path/", 1), harness=P + "h_path",
                           params={"dir": d, "arg": arg}, vars={"I": "int", "X": "int", "B": "int"}, timeout=900, per_path=120))
+    for d in DIRECTIVES:
+        for arg in (None, "out/t.dat"):
+            if tier == "quick" and arg is not None and d not in ("make_bin", "make_wav"):
+                continue
+            obs.append(Ob(oid=f"path-in-include/{d}/{'default' if arg is None else 'relative'}", harness=P + "h_path_include", params={"dir": d, "arg": arg},
+                          vars={"X": "int", "B": "int"}, timeout=300))
     multis = [
         [["make_wav", "a.wav", "ONE"], ["make_wav", "b.wav", "TWO"]],
         [["make_turbo_wav", "t1.wav", None], ["make_turbo_wav", "sub/t2.wav", None], ["make_wav", "n.wav", "N"]],
